@@ -793,7 +793,7 @@ var fbLog [zzsimrt.MaxClients][][2]int
 
 //go:norace
 func noteFallback(off, n int) {
-	c := zzsimrt.Cur()
+	c := zzsimrt.Root(zzsimrt.Cur()) // a hook reached on a goroutine of the library belongs to the caller's call
 	fbLog[c] = append(fbLog[c], [2]int{off, n})
 }
 
@@ -809,7 +809,7 @@ var remLog [zzsimrt.MaxClients][][2]int
 
 //go:norace
 func noteRemainder(off, n int) {
-	c := zzsimrt.Cur()
+	c := zzsimrt.Root(zzsimrt.Cur())
 	remLog[c] = append(remLog[c], [2]int{off, n})
 }
 
@@ -867,6 +867,11 @@ func wrapReader(dev *Device, op *Op) io.Reader {
 // length, legal while there is capacity, panics there.
 func opTight(op *Op) bool { return mix64(op.Seed^0x7167a1)%3 == 0 }
 
+// lastOpInconclusive: set by execOp when the run of an op decided nothing (see there).
+var lastOpInconclusive bool
+var runawayChildren bool
+var inconclusiveOps int
+
 // execOp performs the call described by p.Op on the prepared inputs.
 func execOp(p *Prepared) (out *Outcome) {
 	op := p.Op
@@ -889,9 +894,16 @@ func execOp(p *Prepared) (out *Outcome) {
 	func() {
 		defer func() {
 			if r := recover(); r != nil {
-				if _, ok := r.(zzsimrt.BudgetExceeded); ok {
+				if be, ok := r.(zzsimrt.BudgetExceeded); ok {
 					out.Budget = true
 					out.Panic = "step budget exceeded"
+					if be.Limit > 0 && zzsimrt.LiveChildren() > 0 {
+						// the caller ran out of steps (not: everybody is blocked)
+						// while goroutines of the library are still running: they
+						// keep running into the following calls of this process,
+						// whose runs then decide nothing (see lastOpInconclusive)
+						runawayChildren = true
+					}
 					return
 				}
 				out.Panic = fmt.Sprint(r)
@@ -913,6 +925,12 @@ func execOp(p *Prepared) (out *Outcome) {
 		call(p, rd, out)
 	}()
 	out.Pts = zzsimrt.EndOp()
+	if v, ok := zzsimrt.TakeChildPanic(); ok {
+		// whatever the caller saw (often: it waits for ever for the goroutine
+		// that died), a real process would be gone
+		out.Budget = false
+		out.Panic = "panic in a goroutine started by the library (it takes the whole process down): " + fmt.Sprint(v)
+	}
 	if addr, ok := zzsimrt.TakeChildFault(); ok && out.Panic == "" {
 		// a memory fault inside a goroutine the library started during this call
 		if p.G.Contains(addr) {
@@ -922,8 +940,19 @@ func execOp(p *Prepared) (out *Outcome) {
 			out.Panic = "fault: invalid memory access outside the arguments (in a goroutine started by the library)"
 		}
 	}
-	if !zzsimrt.BatonTopLevelOnly() && zzsimrt.ChildOverrun() && out.Panic == "" {
-		out.Budget, out.Panic = true, "step budget exceeded (in a goroutine started by the library)"
+	if runawayChildren {
+		runawayChildren = false
+		defer func() { processPolluted = true }()
+	}
+	if !zzsimrt.BatonTopLevelOnly() && zzsimrt.ChildOverrun() {
+		// A goroutine of the library used up its own (very large) step budget.
+		// Whether the call would have returned is then not decided by this run -
+		// the caller usually ends up waiting for that goroutine - and no oracle
+		// is applied to it: inconclusive, counted, never a verdict (DESIGN 2.2b).
+		lastOpInconclusive = true
+		if out.Panic == "" {
+			out.Budget, out.Panic = true, "step budget exceeded (in a goroutine started by the library)"
+		}
 	}
 	out.NilRd, out.Fn = op.NilRd, op.Fn
 	out.Fallbacks = takeFallbacks()
